@@ -2,45 +2,8 @@
 From RaftV Require Import Node.Leader Proofs.RVSpec.
 Open Scope N_scope.
 
-(* the fields no bookkeeping helper touches *)
-Definition vol (n : node) := (n_commit n, n_applied n, n_lii n, n_lit n, n_snaps n, n_fsm n, n_applies n, n_conf n, n_cconf n).
-
-Lemma vol_respond n f r : vol (respond n f r) = vol n.
-Proof. unfold respond. destruct (n_frozen n); [reflexivity|]. destruct (existsb _ _); reflexivity. Qed.
-Lemma vol_respond_all fids : forall n r, vol (respond_all n fids r) = vol n.
-Proof.
-  induction fids as [|f fids IH]; intros n r; [reflexivity|].
-  cbn [respond_all fold_left]. fold (respond_all (respond n f r) fids r). rewrite IH. apply vol_respond.
-Qed.
-Lemma vol_tick n : vol (snd (tick_write n)) = vol n.
-Proof.
-  unfold tick_write. destruct (n_frozen n); [reflexivity|]. destruct (n_budget n) as [k|]; [|reflexivity].
-  destruct (k =? 0); reflexivity.
-Qed.
-Lemma vol_persist n : vol (persist n) = vol n.
-Proof.
-  unfold persist. pose proof (vol_tick n) as H. destruct (tick_write n) as [ok n1]. cbn [snd] in H.
-  destruct ok; [|exact H]. rewrite <- H. reflexivity.
-Qed.
-Lemma vol_become_follower now n l t : vol (become_follower now n l t) = vol n.
-Proof.
-  unfold become_follower, notify_lost_leadership.
-  set (n1 := n <| n_role := Follower |> <| n_term := t |> <| n_leader := Some l |> <| n_vote := _ |>).
-  set (n2 := reset_snapshot_files (persist n1)).
-  assert (E : vol n2 = vol n).
-  { subst n2. unfold reset_snapshot_files.
-    transitivity (vol (persist n1)); [reflexivity|]. rewrite vol_persist. reflexivity. }
-  unfold new_opmanager.
-  match goal with |- vol (?x <| n_pending := _ |> <| n_ro := _ |> <| n_should_verify := _ |> <| n_hb_rounds := _ |> <| n_lease := _ |>) = _ =>
-    transitivity (vol x); [reflexivity|] end.
-  rewrite !vol_respond_all. exact E.
-Qed.
-
 Definition ae_success (r : option ae_resp) : bool := match r with Some p => aer_success p | None => false end.
 
-(* log-level frame of the helpers used before the log is touched *)
-Lemma log_become_follower now n l t : n_log (become_follower now n l t) = n_log n.
-Proof. pose proof (become_follower_fields now n l t) as H. cbn zeta in H. tauto. Qed.
 
 (* A rejected request (success = false, or an error) leaves the log and the commit index as they were. *)
 Theorem ae_reject_unchanged now n q :
